@@ -106,6 +106,12 @@ package nsx
 // services are filtered page by page.
 //vc:func (*State).LoadDevice
 //vc:  assert[C07] at "s.sendRequest("#2 @onlyNetspocPoliciesFetched strings.HasPrefix(result.Id, "Netspoc")
+// What was kept stays what it was when it was tested: the decode target of a
+// page is a new variable in every round of the page loop. json.Unmarshal reuses
+// the arrays of a non-empty target, so a target shared between pages would
+// overwrite the texts kept from the page before with foreign objects
+// (structural guard; the engine has no object-level frame for Unmarshal).
+//vc:freshinloop[C07] (*State).getRawJSON results 1
 //vc:func (*State).getRawJSON
 //vc:  assert[C07] at "data = append(data, result)" @onlyNetspocObjectsKept strings.HasPrefix(id.Id, "Netspoc")
 
